@@ -12,15 +12,20 @@ Proved (proof, partial) for the unary operation classes between ITERATION engine
     relation with the columns and the rows (values, multiplicity, order) of `op` applied to the
     target's rows; it lives in the target's engine or, only if `transfer=True`, in the preferred one;
   * `same_as_plain_application`: hence the same content as the call without any option.
+  * `apply_on_sql_target_sound`: the same for a target that lives in a SQL engine (any raw SQL tree incl.
+    chains and joins), for EVERY combination of the options and a preferred engine of either family: the
+    SQL engine does not back-track, a transfer goes through `conform`, and `append_unary` in either
+    engine does the rest (by the tree-building induction of C17).
 Excluded by hypothesis, not proved: a Projection back-tracked past a Deduplication (`spineNoDedup`;
-this is the unsound pair of C04, finding F04), joins (`PartialJoin`), and any path through the SQL
-engine (`conform`): those are validated by correspondence + oracle.
+this is the unsound pair of C04, finding F04), joins (`PartialJoin`), and back-tracking from an
+iteration-engine target INTO a SQL engine: those are validated by correspondence + oracle.
 
 Working out this induction is what exposed three genuine defects of the implementation (now
 repaired in /repo, see DESIGN.md section 12, #19, #21, #22): the statements below could not be
 proved of the code as it was.
 -/
 import DafRel.Lemmas.Backtrack
+import DafRel.Lemmas.SqlApply
 import DafRel.Bridge.Ops
 import DafRel.Bridge.RelOps
 
@@ -35,6 +40,13 @@ theorem backtracking_sound (σ : Leaves) (st : Store) (pref : Engine) (hpk : pre
     (hnd : o.isProj = true → tree.spineNoDedup)
     (h : backtrack st fuel (.u o) tree pref = .ok (res, done)) : BTok σ o tree (res.get tree) done :=
   backtrack_sound σ st pref hpk fuel o tree res done hwf htr hop hnd h
+
+/-- **`apply` on a target in a SQL engine, any options, preferred engine of either family.** -/
+theorem apply_on_sql_target_sound (σ : Leaves) (st : Store) (fuel : Nat) (o : UOp) (t : Rel) (opts : Opts)
+    (res : Res) (hwf : t.WF) (htr : t.Truthful σ) (hraw : t.RawSql)
+    (hs : ∀ p, opts.pref = some p → transferSimplify p t = none)
+    (h : applyOp st (fuel+1) (.u o) t opts = .ok res) : ApplyOK σ o t (res.get t) opts :=
+  applyOp_sql_target_sound σ st fuel o t opts res hwf htr hraw hs h
 
 /-- **`apply` with any combination of preferred-engine options is sound.** -/
 theorem apply_with_options_sound (σ : Leaves) (st : Store) (fuel : Nat) (o : UOp) (t : Rel) (opts : Opts)
@@ -94,6 +106,19 @@ example : tree0.WF := ⟨trivial, rfl, by decide⟩
 example : (applyOp [] defaultFuel (.u (.calc tx (.ref ta))) tree0 opts0).toOption.map
     (fun r => match r.get tree0 with
       | .unary (.sel _) (.transfer _ _ (.unary (.calc _ _) (.leaf ..) _)) _ => true
+      | _ => false) = some true := by decide
+
+
+private def es : Engine := ⟨2, .sql⟩
+private def leafS : Rel := .leaf 3 es [ta, tb] "S" 0 none true 0
+/-- a sorted SQL relation; a slice preferred in the iteration engine `e0`, with transfer -/
+private def treeS : Rel := .unary (.sort [⟨.ref tb, false⟩]) leafS [ta, tb]
+private def optsS : Opts := { pref := some e0, backtrack := true, transfer := true, require := false }
+example : treeS.WF ∧ treeS.RawSql ∧ transferSimplify e0 treeS = none := ⟨⟨trivial, rfl, by decide⟩, rfl, rfl⟩
+/-- the SQL tree is conformed, transferred, and the slice applied in the preferred engine -/
+example : (applyOp [] defaultFuel (.u (.slice 1 (some 3))) treeS optsS).toOption.map
+    (fun r => match r.get treeS with
+      | .unary (.slice 1 (some 3)) (.transfer _ d (.select ..)) _ => d == e0
       | _ => false) = some true := by decide
 
 end DafRel.Props.C03
